@@ -170,6 +170,11 @@ func visitInstr(fr *frame, instr ssa.Instruction) continuation {
 		// no-op
 
 	case *ssa.UnOp:
+		if p.race != nil && instr.Op == token.MUL {
+			if addr, ok := fr.get(instr.X).(*value); ok && addr != nil {
+				p.access(fr, addr, false, raceWhat(instr.X))
+			}
+		}
 		fr.env[instr] = unop(fr, instr, fr.get(instr.X))
 
 	case *ssa.BinOp:
@@ -228,6 +233,9 @@ func visitInstr(fr *frame, instr ssa.Instruction) continuation {
 
 	case *ssa.Store:
 		addr := fr.ptr(fr.get(instr.Addr), "store")
+		if p.race != nil {
+			p.access(fr, addr, true, raceWhat(instr.Addr))
+		}
 		store(mustDeref(instr.Addr.Type()), addr, fr.get(instr.Val))
 
 	case *ssa.If:
@@ -336,6 +344,11 @@ func visitInstr(fr *frame, instr ssa.Instruction) continuation {
 		}
 
 	case *ssa.Lookup:
+		if p.race != nil {
+			if m, ok := fr.get(instr.X).(*gomap); ok && m != nil {
+				p.access(fr, m, false, "map "+instr.X.Name())
+			}
+		}
 		fr.env[instr] = lookup(fr, instr, fr.get(instr.X), fr.get(instr.Index))
 
 	case *ssa.MapUpdate:
@@ -346,6 +359,9 @@ func visitInstr(fr *frame, instr ssa.Instruction) continuation {
 		case *gomap:
 			if m == nil {
 				p.targetPanic(fr, "assignment to entry in nil map")
+			}
+			if p.race != nil {
+				p.access(fr, m, true, "map "+instr.Map.Name())
 			}
 			m.insert(fr, key, v)
 		default:
@@ -646,6 +662,7 @@ func doSelect(fr *frame, instr *ssa.Select) value {
 			p.chanSend(fr, c.ch, c.v)
 		} else {
 			recv, recvOk = c.ch.doRecv()
+			p.hbAcquire(c.ch.lastvc)
 		}
 	}
 	r := tuple{chosen, recvOk}
